@@ -298,6 +298,7 @@ class Meter(object):
         self.limit = BUDGET
         self.where = None
         self.samples = []
+        self.memerr = None
         self.ready = False
 
     def setup(self):
@@ -310,7 +311,22 @@ class Meter(object):
             pass
         mon.register_callback(self.tool, mon.events.PY_START, self.cb)
         mon.register_callback(self.tool, mon.events.JUMP, self.cb)
+        mon.register_callback(self.tool, mon.events.RAISE, self.on_raise)
         self.ready = True
+
+    def on_raise(self, code, off, exc):
+        # an allocation request refused by the address-space limit: remember where,
+        # whether or not a handler swallows the MemoryError afterwards
+        if isinstance(exc, MemoryError) and self.memerr is None:
+            f = sys._getframe(1)
+            lab = "?"
+            while f is not None:
+                fn = f.f_code.co_filename
+                if "/amoco/" in fn:
+                    lab = "%s:%s" % (fn.split("/amoco/")[-1], f.f_code.co_qualname)
+                    break
+                f = f.f_back
+            self.memerr = lab
 
     GRACE = 30000  # events after the overrun during which the stack is sampled
 
@@ -358,7 +374,8 @@ class Meter(object):
         self.limit = limit
         self.where = None
         self.samples = []
-        self.mon.set_events(self.tool, self.mon.events.PY_START | self.mon.events.JUMP)
+        self.memerr = None
+        self.mon.set_events(self.tool, self.mon.events.PY_START | self.mon.events.JUMP | self.mon.events.RAISE)
 
     def stop(self):
         self.mon.set_events(self.tool, 0)
@@ -503,6 +520,14 @@ def one_case(case, st, measure_mem):
             "detail": {"events": METER.n, "budget": METER.limit, "where": METER.where, "returned": outcome},
         }
         outcome = "budget"
+    if METER.memerr is not None and (viol is None or viol["class"] == "exception-escapes"):
+        # decided by the refusal itself: some allocation asked for more than the
+        # address-space allowance (current size + 768 MiB) of this world
+        viol = {
+            "class": "memory-exceeded",
+            "signature": "filesim:memory@%s" % METER.memerr,
+            "detail": {"allocation_site": METER.memerr, "file_size": len(data), "returned": outcome, "how": "allocation refused by RLIMIT_AS (current + 768 MiB)"},
+        }
     if viol is None and peak is not None:
         st.hit("probe:memory-measured")
         if peak > MEM_BASE + MEM_PER_BYTE * len(data):
@@ -592,7 +617,17 @@ def shrink_op(op):
 
 
 def run(spec):
+    import resource
+
     install_seam()
+    # address-space allowance of this world: what it has now + 768 MiB.  A request
+    # beyond it raises MemoryError at once (no page is touched), which the RAISE
+    # monitor attributes to its site.
+    soft, hard = resource.getrlimit(resource.RLIMIT_AS)
+    lim = _vm_bytes() + (768 << 20)
+    if hard != resource.RLIM_INFINITY:
+        lim = min(lim, hard)
+    resource.setrlimit(resource.RLIMIT_AS, (lim, hard))
     rng = random.Random(spec.get("seed", 0))
     thorough = spec.get("tier") == "thorough"
     if spec["kind"] == "random":
